@@ -52,6 +52,7 @@ type provBal struct {
 	commission map[string]sdk.DecCoins // validator name -> accumulated commission
 	rates    map[string]map[string]math.LegacyDec // consumer -> validator name -> commission rate in force for that consumer's rewards
 	custom   map[string]map[string]bool // consumer -> validator name -> a per-consumer rate is set
+	exists   map[string]bool // validator name -> known to x/staking
 	sets     map[string][]world.CV
 	height   int64
 }
@@ -114,6 +115,10 @@ func (m *C16) takeProvBal(w *world.World) *provBal {
 	}
 	if fp, err := w.P.PApp.DistrKeeper.FeePool.Get(ctx); err == nil {
 		pb.community = fp.CommunityPool
+	}
+	pb.exists = map[string]bool{}
+	for name, o := range w.ObserveVals() {
+		pb.exists[name] = o.Exists
 	}
 	pb.commission = map[string]sdk.DecCoins{}
 	pb.rates = map[string]map[string]math.LegacyDec{}
@@ -303,6 +308,14 @@ func (m *C16) After(w *world.World, a *world.Action, r *world.StepResult) *Viola
 	}
 	for name, o := range pre.outstanding {
 		if _, still := post.outstanding[name]; !still && !o.IsZero() {
+			w.Label("payout-accounting-skipped")
+			return nil
+		}
+	}
+	// a validator removed by x/staking in this block (its unbonding completed with no stake left) has its commission
+	// paid out of the distribution module and its outstanding rewards moved to the community pool by the hook
+	for name, was := range pre.exists {
+		if was && !post.exists[name] {
 			w.Label("payout-accounting-skipped")
 			return nil
 		}
